@@ -3,6 +3,7 @@ import os
 import sys
 sys.path.insert(0, os.path.dirname(os.path.abspath(__file__)))
 import core  # noqa: E402
+import genes  # noqa: E402  (kernel II: gene bookkeeping, coq/theories/Genes)
 
 if __name__ == "__main__":
     sys.exit(core.main(
@@ -15,4 +16,7 @@ if __name__ == "__main__":
              "metabolite coefficients, metabolite -> reactions back references, model membership) is compared with the "
              "Gallina model and the Coq-defined cross-reference predicate is evaluated on it; non-trivial = the history "
              "contains an operation other than Enter/Exit/NewRxn; distinct = distinct op lists",
-        manifest_trusted=["object identity is one Python object per identifier (enforced by the generator)"]))
+        manifest_trusted=["object identity is one Python object per identifier (enforced by the generator)",
+                          "genes kernel: gene objects are compared through identifiers and identity tests on the real "
+                          "objects (harness/genes.py observe), not through an object numbering"],
+        extra=[genes.run], extra_targets=genes.EXTRA_TARGETS))
